@@ -394,7 +394,7 @@ def handle (op : String) (args : List String) : Option String :=
   | "forkinv", g :: decId :: id :: mapped :: rest => do
     -- the model of Fork.writeInvocation on the resolved inputs of one fork: sig fields `<hex id>=<typeid>`,
     -- then `|`, then argument fields `<hex id>=<mv>`.  Reply: `built=<b>` and, when built,
-    -- `plain=<b> compiles=<b> wf=<b> fok=<b> cons=<b> text=<hex> data=<hex id>=<json>;… split=<hex,…>`
+    -- `plain=<b> compiles=<b> ph=<placeholder map call> wf=<b> fok=<b> cons=<b> text=<hex> data=<hex id>=<json>;… split=<hex,…>`
     let g ← parseG g
     let decId ← bytesOfHex decId
     let id ← bytesOfHex id
@@ -412,21 +412,23 @@ def handle (op : String) (args : List String) : Option String :=
     match Martian.InvocationFork.invocationOf sig mapped margs with
     | none => pure "built=false"
     | some ibs =>
-      let compiles := Martian.InvocationFork.forkCompiles g decId id ibs
+      let compiles := Martian.InvocationFork.forkCompiles g decId id mapped ibs
+      let ph := Martian.InvocationFork.mapPlaceholder mapped ibs
       match Martian.InvocationFork.plainBinds ibs with
-      | none => pure ("built=true plain=false compiles=" ++ boolStr compiles)
-      | some bs =>
-        let data := match Martian.InvocationFork.forkTextLeg g decId id bs with
+      | none => pure ("built=true plain=false compiles=" ++ boolStr compiles ++ " ph=" ++ boolStr ph)
+      | some bs0 =>
+        let bs := Martian.InvocationSort.sortBinds bs0
+        let data := match (if ph then none else Martian.InvocationFork.forkTextLeg g decId id bs) with
           | some (_, _, bs') =>
             let d := dataOf bs'
             ";".intercalate (d.args.map fun a => hexOfBytes a.1 ++ "=" ++ join (showJ a.2)) ++ " split=" ++
               (if d.splitargs.isEmpty then "." else ",".intercalate (d.splitargs.map hexOfBytes))
           | none => "none"
-        pure ("built=true plain=true compiles=" ++ boolStr compiles ++ " wf=" ++
+        pure ("built=true plain=true compiles=" ++ boolStr compiles ++ " ph=" ++ boolStr ph ++ " wf=" ++
           boolStr (Martian.InvocationFork.wfForkText g decId id bs) ++ " fok=" ++
           boolStr (Martian.InvocationText.floatsOkBinds g bs) ++ " cons=" ++
           boolStr (Martian.InvocationFork.splitsConsistent bs) ++ " text=" ++
-          hexOfBytes (Martian.InvocationFork.printFork g decId id bs) ++ " data=" ++ data)
+          hexOfBytes (Martian.InvocationFork.printForkM g decId id mapped ibs bs0) ++ " data=" ++ data)
   | "sortkeys", [e] => do
     -- member order (C16-M1): the Go map of the members read out in printing order; `sorted=<b> <exp>`
     let e ← parseExpStr e
